@@ -41,7 +41,7 @@ THEOREMS_GATE = [P + "gate_matches_spec", P + "deviations_used"]
 KERNELS = ["mju_mulQuat", "mju_mulQuatAxis", "mju_rotVecQuat", "mju_quat2Mat", "mju_axisAngle2Quat", "mju_quatIntegrate",
            "mju_subQuat", "mju_normalize3", "mju_normalize4", "mju_norm3", "mju_crossMotion", "mju_crossForce", "mju_mulInertVec",
            "mju_makeFrame", "mju_transformSpatial", "mju_muscleGainLength", "mju_muscleGain", "mju_muscleBias",
-           "mju_muscleDynamicsTimescale", "mju_muscleDynamics"]
+           "mju_muscleDynamicsTimescale", "mju_muscleDynamics", "mjraw_PlaneSphere", "mjraw_SphereSphere"]
 
 GEN_DIR = os.path.join(common.LEAN, "MjProof", "Gen")
 GATE_JSON = os.path.join(GEN_DIR, "MjxGate.json")
@@ -99,6 +99,15 @@ MAPPING = {
     "transform_motion": ("mju_transformSpatial", lambda r: vec(r, 6) + vec(r, 3) + vec(r, 9),
                          lambda a: [fbits(x) for x in a[:6]] + ["i0"] + [fbits(x) for x in a[6:9]] + [fbits(0.0)] * 3 + [fbits(x) for x in a[9:]], 0,
                          "flg_force = 0, oldpos = 0, newpos = offset"),
+    # primitive colliders (kernels of C13): the C functions take the contact struct in/out and a margin (huge here, so that a contact is
+    # always produced); C output tokens: count, dist, normal(3), pos(3), tangent(3)
+    "plane_sphere": ("mjraw_PlaneSphere", lambda r: unit(r, 3) + vec(r, 3) + vec(r, 3) + [r.uniform(0.05, 0.5)],
+                     lambda a: [fbits(0.0)] * 7 + [fbits(1e3)] + [fbits(x) for x in a[3:6]] + [fbits(x) for x in a[0:3]] + [fbits(x) for x in a[6:9]] + [fbits(a[9])],
+                     lambda t: [t[1]] + t[5:8], "unit plane normal; (dist, pos) compared"),
+    "sphere_sphere": ("mjraw_SphereSphere", lambda r: vec(r, 3) + [r.uniform(0.05, 0.5)] + vec(r, 3) + [r.uniform(0.05, 0.5)],
+                      lambda a: [fbits(0.0)] * 10 + [fbits(1e3)] + [fbits(x) for x in a[0:3]] + [fbits(0.0), fbits(0.0), fbits(1.0)] + [fbits(a[3])]
+                      + [fbits(x) for x in a[4:7]] + [fbits(0.0), fbits(0.0), fbits(1.0)] + [fbits(a[7])],
+                      lambda t: [t[1]] + t[5:8] + t[2:5], "distinct centres; (dist, pos, normal) compared"),
     "muscle_gain_length": ("mju_muscleGainLength", lambda r: [r.uniform(0.2, 2.0), r.uniform(0.3, 0.7), r.uniform(1.3, 1.9)], _same, 0, "lmin < 1 < lmax"),
     "muscle_gain": ("mju_muscleGain", lambda r: [r.uniform(0.2, 1.8), r.uniform(-3, 3), 0.5, 1.5, r.uniform(1, 100)] + muscle_prm(r),
                     lambda a: [fbits(x) for x in a[:5]] + [fbits(a[5 + i]) for i in (0, 1, 2, 3, 4, 5, 6, 8)], 0, "physiological parameter ranges"),
@@ -169,7 +178,7 @@ def kernel_streams(ctx, hx, manifest, per_fn):
                 bad_k.append({"line": l, "model": k, "impl": o})
             continue
         drop = MAPPING[fn][3]
-        kt = k.split()[drop:]
+        kt = drop(k.split()) if callable(drop) else k.split()[drop:]
         good, dev = close(o.split(), kt, TOL_MATH)
         maxdev[fn + " vs " + MAPPING[fn][0]] = max(maxdev.get(fn + " vs " + MAPPING[fn][0], 0.0), dev)
         ctx.count(l)
@@ -525,7 +534,12 @@ def run_agree(ctx, pair, orc, rng, quick, nmodels):
                 break
             ctx.count((mi, si, "forward"))
             ncon = pair.compare_contacts(rps)
-            pair.compare(FWD_FIELDS, "forward" + ("+contacts" if ncon else ""), rps, ncon=ncon)
+            fields = FWD_FIELDS
+            if json.loads(pair.h.ask("out efc"))["efc"]["nefc_static"] == 0:
+                # no constraint rows at all: mjx.forward returns before sensor_acc (finding c43:acc-sensors-skipped-without-constraints,
+                # exercised by its directed case); the acceleration-stage sensors are not compared here
+                fields = [f for f in FWD_FIELDS if f != "sensordata"]
+            pair.compare(fields, "forward" + ("+contacts" if ncon else ""), rps, ncon=ncon)
             pair.compare_M(rps)
             pair.compare_efc(rps)
             hist["states_with_contacts" if ncon else "states_without_contacts"] = hist.get("states_with_contacts" if ncon else "states_without_contacts", 0) + 1
@@ -791,6 +805,24 @@ def run_directed(ctx, pair, orc):
             pair.compare(["xpos", "geom_xpos"], "directed-nodof", {"model_description": L})
 
 
+def regen_kernels(ctx):
+    """the c2lean kernels of lean/MjProof/Gen/Kernels.lean must be those of THIS tree: translate/regen_all.py keeps a stamp
+    (hash of every translated source file, header and translator + hash of each output); when the stamp matches, re-running
+    the translation would rewrite the same bytes, so only the stamp is verified; otherwise everything is regenerated."""
+    sys.path.insert(0, os.path.join(common.VERIF, "translate"))
+    try:
+        import importlib
+        ra = importlib.import_module("regen_all")
+        ra.c2lean.REPO = common.REPO
+        if ra.c2lean_up_to_date(GEN_DIR):
+            ctx.oblige("c2lean kernels in lean/MjProof/Gen are the translation of the working tree (source/output hashes of the translator's stamp)",
+                       "translator", True)
+            return json.load(open(os.path.join(GEN_DIR, "kernels_manifest.json")))
+    except Exception:   # fall back to the full regeneration
+        pass
+    return kernelval.regen(ctx)
+
+
 # ------------------------------------------------------------------------------------------ run
 def run(ctx):
     procs = []
@@ -816,7 +848,7 @@ def _run(ctx, procs):
     ctx.checker_cmd = ("cd /verif && python3 translate/regen_all.py && cd lean && lake build MjProof.Props.C43 MjProof.Props.C43Gate "
                        "&& lake env lean Audit/C43.lean")
     t0 = time.time()
-    manifest = kernelval.regen(ctx)
+    manifest = regen_kernels(ctx)
     r = subprocess.run([sys.executable, os.path.join(common.VERIF, "translate", "c43_gate.py")], capture_output=True, text=True,
                        env=dict(os.environ, VERIF_REPO=common.REPO))
     gate_ok = r.returncode == 0
@@ -861,7 +893,7 @@ def _run(ctx, procs):
                and os.path.realpath(env["mjx_file"]).startswith(os.path.realpath(common.REPO)), json.dumps(env)[:1500])
     ctx.assumptions.append("the mujoco wheel of /venv is the MjSpec compiler / MjModel container of the MJX side; every array mjx.Model reads is "
                            "cross-checked against the model the tree's compiler builds from the same description")
-    kernel_streams(ctx, hx, manifest, 12 if quick else 1500)
+    kernel_streams(ctx, hx, manifest, 8 if quick else 150)
     tm["math streams"] = round(time.time() - t0, 1)
 
     t0 = time.time()
@@ -874,13 +906,21 @@ def _run(ctx, procs):
         run_gate(ctx, pair, orc, quick)
         tm["gate cases"] = round(time.time() - t0, 1)
         t0 = time.time()
-        run_agree(ctx, pair, orc, ctx.rng, quick, 3 if quick else 40)
+        run_agree(ctx, pair, orc, ctx.rng, quick, 3 if quick else 22)
         tm["C-vs-MJX pipeline comparison"] = round(time.time() - t0, 1)
-    except (BrokenPipeError, AttributeError, ValueError, json.JSONDecodeError) as e:
+    except (BrokenPipeError, AttributeError, ValueError, TypeError) as e:
         rc, err = hx.close()
         orc.fail("c43:harness-died", "a harness process died / answered garbage: %s" % e, {"stderr": err[-800:]})
     ctx.extra["oracle_checked"] = orc.n
     ctx.extra["oracle_failures"] = orc.nfail
     ctx.extra["oracle_failure_keys"] = orc.keys
+    ctx.extra["generic_comparison_excludes"] = (
+        "the generic C-vs-MJX comparison keeps out the situations of the confirmed findings (each is exercised on every run by its own directed "
+        "case with a stable key): implicitfast with free joints or force-limited actuators, elliptic cone without frictional contacts, "
+        "connect/weld equalities, bodies attached to a mocap body, colliding geoms on mocap bodies, models without degrees of freedom, "
+        "acceleration-stage sensors in models without constraint rows; (world/static/mocap, world/static/mocap) contact candidates that MJX "
+        "lists and the C engine filters are not counted as contact-list differences; efc_pos is compared as efc_pos - efc_margin; contact "
+        "geometry and the quantities downstream of it use the tolerance %g (closest_segment_point regularises its denominator with 1e-6), "
+        "everything else %g" % (TOL_CONTACT, TOL_PIPE))
     if ctx.tier == "thorough":
         ctx.leanchecker(["MjProof.Props.C43", "MjProof.Props.C43Gate"])
